@@ -360,6 +360,9 @@ func (r *vRun) runTeardown() {
 		}
 	}
 	ncall := 1 + xr.n(4) // Close / Abort are called from this many goroutines at once
+	if xr.chance(35) && !r.native {
+		r.idleSide = [2]bool{xr.chance(70), xr.chance(70)} // the first stream accepted on that side gets the idle deadline reader
+	}
 	r.mu.Lock()
 	r.trigAt, r.trigCh = at, make(chan struct{})
 	trig := r.trigCh
@@ -428,6 +431,16 @@ func (r *vRun) runTeardown() {
 		defer cancel()
 		err := r.as[0].Shutdown(ctx)
 		r.logf("e2e shutdown 0 -> %s %d", vErrClass(err), time.Since(r.link.start).Milliseconds())
+		if err != nil {
+			// the shutdown did not go through (e.g. the peer's application does not read): the application gives up and
+			// closes both ends, otherwise the calls parked in AcceptStream / Read would (rightly) wait for ever
+			for sd := 0; sd < 2; sd++ {
+				if a := r.assoc(sd); a != nil {
+					_ = a.Close()
+				}
+			}
+			r.logf("e2e giveup")
+		}
 	}()
 	go func() { all.Wait(); close(finished) }()
 
@@ -539,6 +552,21 @@ func (r *vRun) runTeardown() {
 		r.link.ends[sd].fail()
 	}
 	<-finished
+	// both associations are closed for good. The idle deadline readers come back now: they let their old deadline run out,
+	// set a new one (or none) and read
+	close(r.idleGo)
+	idleDone := make(chan struct{})
+	go func() { r.idleWG.Wait(); close(idleDone) }()
+	tI := time.Now()
+	select {
+	case <-idleDone:
+	case <-time.After(2*time.Hour + 120*time.Second):
+		r.logf("e2e idleunblocked -> false %d", time.Since(tI).Milliseconds())
+		r.mu.Lock()
+		r.l.w.Flush()
+		r.mu.Unlock()
+		<-idleDone // never comes: the bubble reports the blocked reader
+	}
 }
 
 func TestVerifE2ETeardown(t *testing.T) { vE2EMain(t, "teardown") }
